@@ -188,6 +188,21 @@ def nullable_cases():
     ]
 
 
+def ng_whole_rule_cases():
+    """rules whose only mandatory part is a non-greedy `+?` repetition (the lexer reference discusses `[0-9]+?`): they do not
+    match the empty string, so the start state must not accept; with `*?` in the same place they do (known loop)"""
+    D = cls(["0-9"])
+    return [
+        spec("ngw-digit-plusng", [tok("DIGIT", plusng(D)), tok("WORD", plus(cls(["a-z"]))), frag(plus(cls([" ", 0x0A])), ["discard"])]),
+        spec("ngw-id-plusng-tail", [tok("ID", cat(plusng(cls(["a-z"])), star(D))), tok("SEMI", lit(";")), frag(lit(" "), ["discard"])]),
+        spec("ngw-alt-plusng", [tok("AB", plusng(alt(lit("a"), lit("b")))), tok("C", lit("c"))]),
+        spec("ngw-plusng-opt-tail", [tok("X", cat(plusng(lit("x")), opt(lit("y")))), tok("Z", lit("z"))]),
+        spec("ngw-frag-plusng", [frag(plusng(cls([" "])), ["discard"]), tok("A", plus(lit("a")))]),
+        spec("ngw-inmode-plusng", [tok("O", lit("("), ["push", "M"]), tok("P0", lit("p"))],
+             modes=[("M", [tok("D", plusng(D)), tok("C", lit(")"), ["pop"])])]),
+    ]
+
+
 # ------------------------------------------------------------------ random rule sets
 
 def py_nullable(e, macros):
@@ -330,4 +345,44 @@ def keyword_specs(rng, n):
         rules = pats + kws if place == 0 else (kws + pats if place == 1 else kws[:3] + pats + kws[3:])
         rules.append(frag(plus(lit(" ")), ["discard"]))
         out.append(spec("kw-%d" % i, rules))
+    return out
+
+
+def rename_modes(sp, names, tag):
+    """the same specification with its user modes renamed (declaration order kept)"""
+    import copy
+    c = copy.deepcopy(sp)
+    user = [m["name"] for m in c["modes"] if m["name"]]
+    mp = dict(zip(user, names))
+    for m in c["modes"]:
+        if m["name"]:
+            m["name"] = mp[m["name"]]
+        for r in m["rules"]:
+            for a in r["actions"]:
+                if a[0] == "push" and len(a) > 1 and a[1]:
+                    a[1] = mp[a[1]]
+    c["id"] = sp["id"] + "~" + tag
+    return c
+
+
+def mode_name_variants(specs=None):
+    """mode numbers are positions in the byte-sorted list of mode names; variants whose byte order differs from the
+    case-folded order, from the declaration order, from the numeric order of a suffix and from the length order, so that a
+    table emitted by one order and indexed by another is visible"""
+    schemes = {
+        "mixedcase": ["Block", "attr", "Cell"],        # bytes: Block Cell attr   folded: attr block cell
+        "mixedcase2": ["attr", "Block", "cell"],       # bytes: Block attr cell   declared: attr Block cell
+        "numeric": ["M10", "M9", "M1"],                # bytes: M1 M10 M9         numeric: M1 M9 M10
+        "length": ["Zz", "Abcdef", "Mmm"],             # bytes: Abcdef Mmm Zz     by length: Zz Mmm Abcdef
+        "underscore": ["B_b", "Bb", "B0"],             # bytes: B0 B_b Bb ('_' sorts between upper and lower case)
+    }
+    out = []
+    for sp in (specs if specs is not None else CURATED_MODES):
+        n = len([m for m in sp["modes"] if m["name"]])
+        if n < 2:
+            continue
+        for tag, names in schemes.items():
+            out.append(rename_modes(sp, names[:n], tag))
+            if n == 2:
+                out.append(rename_modes(sp, list(reversed(names[:2])), tag + "-swapped"))
     return out
